@@ -169,6 +169,11 @@ struct BearEndpoint : Endpoint {
 		}
 		if (err != 0)
 			VF_CHECK(st == BR_SSL_CLOSED, "%s: after %s last_error=%d but state %#x is not CLOSED", name.c_str(), after, err, st);
+		if (st == BR_SSL_CLOSED) {
+			// bearssl_ssl.h: key export returns 0 when "the connection failed or was closed" (an error or a result, never both)
+			uint8_t tmp[4];
+			VF_CHECK(br_ssl_key_export(eng, tmp, sizeof tmp, "probe", nullptr, 0) == 0, "%s: after %s the engine is closed (error %d) but br_ssl_key_export() still succeeds", name.c_str(), after, err);
+		}
 		if (st == BR_SSL_CLOSED && !was_closed) { was_closed = true; first_err = err; }
 		VF_CHECK(!((st & BR_SSL_SENDREC) && (st & BR_SSL_SENDAPP)), "%s: after %s SENDREC together with SENDAPP (state %#x)", name.c_str(), after, st);
 		VF_CHECK(!((st & BR_SSL_RECVREC) && (st & BR_SSL_RECVAPP)), "%s: after %s RECVREC together with RECVAPP (state %#x)", name.c_str(), after, st);
